@@ -444,4 +444,37 @@ def r6(F, R):
     R.floor(3)
 
 
-RULES = [("R1", r1, None), ("R2", r2, None), ("R3", r3, None), ("R4", r4, None), ("R5", r5, None), ("R6", r6, None)]
+def r7(F, R):
+    """The two totals the framing relies on are what their names say: `count_scenarios()` (compared with the per-feature counter before
+    `Feature::Finished`, reported in ParsingFinished) is the number of the feature's own scenarios PLUS those of all its rules, and
+    `count_steps()` sums the steps of both kinds of scenarios — each reads `scenarios`, `rules` and the rules' `scenarios` (and `steps`)
+    through counting adaptors only (`len`, `iter`, `map`, `flat_map`, `sum`, `count`, `+`), nothing that filters, skips or limits."""
+    OKA = r"(::len|::iter|Iterator::map|Iterator::flat_map|Iterator::flatten|Iterator::sum|Iterator::count|IntoIterator::into_iter|Iterator::chain|Deref::deref|Iterator::fold)$"
+    for name, need in (("count_scenarios", {("gherkin::Feature", "scenarios"), ("gherkin::Feature", "rules"), ("gherkin::Rule", "scenarios")}),
+                       ("count_steps", {("gherkin::Feature", "scenarios"), ("gherkin::Feature", "rules"), ("gherkin::Rule", "scenarios"), ("gherkin::Scenario", "steps")})):
+        bs = [b for b in F.crate_bodies() if re.search(r"feature::Ext(<.*>)?>?::" + name + "$", b.name) or (b.name.endswith("::" + name) and (b.impl or {}).get("self_adt") == "gherkin::Feature")]
+        if len(bs) != 1:
+            raise Unverifiable(f"{name}: {len(bs)} bodies")
+        b = bs[0]
+        fields, calls = set(), []
+        for nb in F.nested(b):
+            for _, st in nb.assigns():
+                for pl in A.rvalue_places(st["rv"]):
+                    fields |= {(o, n) for o, n in place_fields(pl) if o.startswith("gherkin::")}
+            for _, t in nb.calls():
+                calls.append(callee_path(t) or "?")
+                for a in t["args"]:
+                    pl = op_place(a)
+                    if pl:
+                        fields |= {(o, n) for o, n in place_fields(pl) if o.startswith("gherkin::")}
+        bad_calls = sorted({c for c in calls if not re.search(OKA, c)})
+        adds = [st for nb in F.nested(b) for _, st in nb.assigns(lambda st: st["rv"]["k"] in ("bin", "checked") and st["rv"].get("op") in ("Add", "AddWithOverflow"))]
+        others = [st["rv"].get("op") for nb in F.nested(b) for _, st in nb.assigns(lambda st: st["rv"]["k"] in ("bin", "checked") and st["rv"].get("op") not in ("Add", "AddWithOverflow"))]
+        ok = need <= fields and not bad_calls and len(adds) >= 1 and not others
+        R.check(ok, f"total/{name}", b, f"{name} = own scenarios + rules' scenarios ({'steps of both' if name == 'count_steps' else 'counted'})",
+                f"`{name}` does not count the feature's own and its rules' scenarios{' steps' if name == 'count_steps' else ''}: reads {sorted(n for _, n in fields)}, "
+                f"missing {sorted(n for _, n in need - fields)}, non-counting calls {bad_calls[:3]}, other arithmetic {others[:3]}")
+    R.floor(2)
+
+
+RULES = [("R1", r1, None), ("R2", r2, None), ("R3", r3, None), ("R4", r4, None), ("R5", r5, None), ("R6", r6, None), ("R7", r7, None)]
